@@ -15,6 +15,7 @@ import (
 	"com.tuntun.rangers/node/src/core"
 	"com.tuntun.rangers/node/src/middleware"
 	"com.tuntun.rangers/node/src/middleware/db"
+	"com.tuntun.rangers/node/src/middleware/mysql"
 	"com.tuntun.rangers/node/src/middleware/types"
 	"com.tuntun.rangers/node/src/service"
 	"pgregory.net/rapid"
@@ -34,7 +35,9 @@ func TestMain(m *testing.M) {
 		"remove-last + add of a different group at the same height, the node's own fork-switch rollback (removeFromCommonAncestor to an ancestor 0-4 groups below the tip, " +
 		"then 0-3 adds of a different branch), a whole group fork switch (groupChainFork: receive a generated branch, verify on fork, triggerOnChain, destroy; branch valid / " +
 		"with a parent among the rolled-back groups / with a broken predecessor link), clean restart, crash at the n-th store write inside an add / a remove / a rollback / a " +
-		"fork switch followed by restart (a multi-step operation must leave one of its sequential intermediate chains). " +
+		"fork switch followed by restart (a multi-step operation must leave one of its sequential intermediate chains), and a failure of the secondary (sqlite) group index " +
+		"at a generated DeleteGroup call inside a rollback / fork switch over 1-4 heights (if the node panics it is restarted like after a crash; either way the chain must " +
+		"be one of the operation's sequential intermediate chains, live and after restart). " +
 		"After every operation the whole observable state (LastGroup, Count, predecessor walk, Iterator, height index up to count+3, by-id lookups of listed and " +
 		"removed groups, GetSyncGroupsById / GetSyncGroupsByHeight) is compared with a model slice. non-trivial = history with >=1 remove followed later by an " +
 		"add of a different group; distinct by the operation trace. Second family 'two concurrent group-chain operations': AddGroup(X) (valid next / parent = last / " +
@@ -703,11 +706,12 @@ func TestGroupChainHistories(t *testing.T) {
 				"add", "add", "add", "add", "readd", "invalid", "invalid",
 				"remove", "remove", "replace", "replace", "restart", "crashAdd", "crashRemove",
 				"rollback", "rollback", "forkSwitch", "forkSwitch", "forkSwitch", "crashRollback", "crashForkSwitch",
+				"faultRollback", "faultForkSwitch",
 			}).Draw(t, "action")
 			if !canRemove && (action == "remove" || action == "replace" || action == "crashRemove") {
 				action = "add"
 			}
-			if restarts >= 30 && (action == "restart" || strings.HasPrefix(action, "crash")) {
+			if restarts >= 30 && (action == "restart" || strings.HasPrefix(action, "crash") || strings.HasPrefix(action, "fault")) {
 				action = "add"
 			}
 			where := fmt.Sprintf("step %d (%s)", step, action)
@@ -817,6 +821,91 @@ func TestGroupChainHistories(t *testing.T) {
 					forkDirty = dropped > 0
 				}
 				afterCrash(where, what, cands, nth, total, dropped, k)
+			case "faultRollback", "faultForkSwitch":
+				// the secondary store (sqlite group index) fails once inside a multi-height rollback
+				for len(m.list) < 4 {
+					addValid(freshValid(), "add")
+				}
+				maxk := len(m.list) - 1
+				if maxk > 4 {
+					maxk = 4
+				}
+				lo := 2
+				if rapid.IntRange(0, 3).Draw(t, "shallow") == 0 {
+					lo = 1
+				}
+				k := rapid.IntRange(lo, maxk).Draw(t, "rollbackDepth")
+				aIdx := len(m.list) - 1 - k
+				var branch []*mgroup
+				if action == "faultForkSwitch" {
+					branch, _ = buildBranch(aIdx, k, rapid.IntRange(0, 3).Draw(t, "branchLen"), "valid")
+				}
+				anc := ancestorOnChain(aIdx)
+				cands, _ := planSwitch(k, branch)
+				failAt := rapid.IntRange(1, k+1).Draw(t, "failDeleteGroupCall") // k+1: armed, never reached
+				what := fmt.Sprintf("the rollback of %d groups to %s", k, m.list[aIdx].name)
+				if action == "faultForkSwitch" {
+					what = fmt.Sprintf("the fork switch at %s (roll back %d, branch %d)", m.list[aIdx].name, k, len(branch))
+				}
+				mysql.VerifFailDeleteGroup(failAt)
+				p := safely(func() {
+					if action == "faultRollback" {
+						core.VerifGroupChainRollbackTo(anc)
+					} else {
+						core.VerifGroupForkSwitch(anc, branchWires(aIdx, branch))
+					}
+				})
+				hits := mysql.VerifDisarmDeleteGroup()
+				trace = append(trace, fmt.Sprintf("%s: %s, group-index delete #%d fails (hit %d) -> panic=%v", action, what, failAt, hits, p != nil))
+				stats.Class("sqlite_fault_armed")
+				if hits > 0 {
+					stats.Class("sqlite_fault_hit")
+					if k >= 2 {
+						stats.Class("sqlite_fault_hit_in_rollback_of_2plus_heights")
+					}
+					if p != nil {
+						stats.Class("sqlite_fault_panic_observed")
+					} else {
+						stats.Class("sqlite_fault_survived_without_panic")
+					}
+				}
+				if p != nil && hits == 0 {
+					fail("%s panicked although no fault was injected: %v", what, p)
+				}
+				if p != nil {
+					// the process died at the failing index update: what is on disk is what counts
+					restart(fmt.Sprintf("after the process died in %s (group-index delete #%d failed)", what, failAt))
+				}
+				matchCands := func(stage string) int {
+					var errs []string
+					for i, c := range cands {
+						e := checkState(c, where+" "+stage, knownA)
+						if e == nil {
+							return i
+						}
+						errs = append(errs, fmt.Sprintf("vs step %d [%s]: %v", i, c.names(), e))
+					}
+					fail("group-index delete #%d failed inside %s (node panicked: %v); %s the chain equals none of the %d chains the operation passes through\n  %s",
+						failAt, what, p != nil, stage, len(cands), strings.Join(errs, "\n  "))
+					return -1
+				}
+				matched := matchCands("afterwards")
+				if hits == 0 && matched != len(cands)-1 {
+					fail("no fault was reached in %s, yet the chain is [%s], not the operation's result [%s]", what, cands[matched].names(), cands[len(cands)-1].names())
+				}
+				if hits > 0 && p == nil {
+					// the node carried on: what it keeps must also be what it finds after a restart
+					restart("after " + what + " with a failed group-index delete")
+					if again := matchCands("after a restart"); again != matched {
+						fail("after %s with a failed group-index delete the live chain was [%s] but after a restart it is [%s]", what, cands[matched].names(), cands[again].names())
+					}
+				}
+				stats.Class(fmt.Sprintf("sqlite_fault_left_step_%d_of_%d", matched, len(cands)-1))
+				rolled, addedNow := matched, 0
+				if matched > k {
+					rolled, addedNow = k, matched-k
+				}
+				adopt(cands[matched], rolled, addedNow)
 			case "replace":
 				old := m.last()
 				removeLast()
